@@ -1,8 +1,8 @@
 (* NonVacuity/C06_sites.v — examples for Properties/C06_sites.v: the regenerated functions are live (they depend on every
    argument and on the order), and the theorems are usable to rewrite a model term into one over the source's fragments *)
 From Coq Require Import List NArith String Lia.
-From PV Require Import Bytes Result Oracle Ctr Paserk MacSiteRules ToyOracle.
-From PV.Gen Require Import MacSites.
+From PV Require Import Bytes Result Oracle Ctr Paserk MacSiteRules KdfSiteRules ToyOracle.
+From PV.Gen Require Import MacSites KdfSites.
 From PV.Properties Require Import C06_sites.
 Import ListNotations.
 Local Open Scope string_scope.
@@ -45,3 +45,14 @@ Example C06_pke_tag_input_is_the_sources_used :
 Proof. destruct (C06_pke_tag_input_is_the_sources toy) as (H & _). apply H. Qed.
 Example C06_no_other_mac_site_nonvacuous : Nat.leb 60 (length gen_mac_sites) = true.
 Proof. vm_compute. reflexivity. Qed.
+
+(* ---- separator constants ---- *)
+Example C06_pie_kdf_separators_are_the_sources_used :
+  pieB_keys toy (repeat x07 32) (repeat x2b 32) = pieB_with toy "paseto-v4/src/core/pie_wrap.rs" (repeat x07 32) (repeat x2b 32) /\
+  kdf_label "paseto-v4/src/core/pie_wrap.rs" 0 <> kdf_label "paseto-v4/src/core/pw_wrap.rs" 0.
+Proof. split; [apply C06_pie_kdf_separators_are_the_sources | vm_compute; discriminate]. Qed.
+Example C06_pbkw_subkey_separators_are_the_sources_used :
+  (pw_ek (v3_pw toy) (str "prekey"), pw_ak (v3_pw toy) (str "prekey")) = pwA_subkeys_with toy "paseto-v3/src/core/pw_wrap.rs" (str "prekey").
+Proof. apply C06_pbkw_subkey_separators_are_the_sources. Qed.
+Example C06_separators_are_the_specs_used : kdf_label "paseto-v2/src/core/pie_wrap.rs" 1 = hex "81" /\ kdf_label "paseto-v4-sodium/src/core/pw_wrap.rs" 0 = hex "ff".
+Proof. split; [apply (proj1 C06_separators_are_the_specs) | apply (proj2 C06_separators_are_the_specs)]; simpl; auto 10. Qed.
